@@ -48,6 +48,8 @@ static void sem_body(int idx, int y, int w) {
 
 // "semcrowd s n": n further (anonymous) fibers each take one unit of semaphore s; the caller posts n units one by one
 static long sem_crowd;
+static fiber_semaphore_t sem_scratch[MAX_FIBERS];
+static int sem_cycles;
 static void* sem_crowd_body(void* p) {
   int s = (int)(intptr_t)p;
   fiber_semaphore_wait(&sem[s]);
@@ -56,6 +58,22 @@ static void* sem_crowd_body(void* p) {
 }
 static int sem_do_op(int idx, op_t* op) {
   int s = op->a % NS;
+  if (!strcmp(op->name, "semcycle")) {
+    // life cycle: a short-lived semaphore of this fiber's own is initialised, used without contention (b post/wait pairs)
+    // and destroyed, while the long-lived ones are in use
+    fiber_semaphore_t* t = &sem_scratch[idx % MAX_FIBERS];
+    rt_dirty(t, sizeof *t);
+    fiber_semaphore_init(t, op->c & 1);
+    for (int i = 0; i < op->b; i++) {
+      fiber_semaphore_post(t);
+      fiber_semaphore_wait(t);
+    }
+    if (fiber_semaphore_getvalue(t) != (op->c & 1))
+      vs_violation("value_mismatch", "short-lived semaphore of fiber %d: value %d after %d post/wait pairs from %d", idx, fiber_semaphore_getvalue(t), op->b, op->c & 1);
+    fiber_semaphore_destroy(t);
+    g_inc(&sem_cycles);
+    return 1;
+  }
   if (!strcmp(op->name, "semcrowd")) {
     for (int i = 0; i < op->b; i++) {
       fiber_t* f = fiber_create(8192, &sem_crowd_body, (void*)(intptr_t)s);
@@ -120,6 +138,7 @@ GHOST static void sem_final(void) {
                    sem_init_val[i], posts_done[i], acquired[i], expect);
   }
   vs_label_max("crowd", (uint64_t)sem_crowd);
+  vs_label_add("sem_init_destroy_cycles", (uint64_t)sem_cycles);
   vs_label_add("sem_blocked_waits", sem_blocked_waits);
   vs_label_add("sem_try_ok", sem_try_ok);
   vs_label_add("sem_try_fail", sem_try_fail);
